@@ -906,6 +906,15 @@ func (c *Conn) WriteFrame(messageType MessageType, sendOpcode, fin bool, data []
 		return net.ErrClosed
 	}
 
+	switch messageType {
+	case PingMessage, PongMessage, CloseMessage:
+		// the limit of WriteMessage holds for frames written one by one as well.
+		if len(data) > maxControlFramePayloadSize {
+			return ErrControlMessageTooBig
+		}
+	default:
+	}
+
 	return c.writeFrame(messageType, sendOpcode, fin, data, false)
 }
 
